@@ -97,6 +97,8 @@ def judge(t0, t1, rng, acc=None, order="domain-range"):
             return "EXC:" + type(e).__name__, "%s at %s raised %r" % (where, t, e)
         if acc is not None:
             acc.counters["queries"] += 1
+            acc.evals += 1  # one evaluation = one (domain, range, call order, query) case
+            acc.trans += 1
             if fr not in (0, 1):
                 acc.nontriv += 1
         tol = 1e-9 * span * (1 + abs(float(frac)))
@@ -143,8 +145,6 @@ def run_shard(shard):
             for ri, rng in enumerate(RANGES):
                 order = ORDERS[(k + ri) % 4]
                 bad = judge(t0, t1, rng, acc, order)
-                acc.evals += 1
-                acc.trans += 1
                 if bad:
                     acc.violation({"t0": t0, "t1": t1, "range": rng, "order": order}, bad[0], bad[1], order=(k,))
     # short domains: a few milliseconds to a few seconds, far from and near the epoch
@@ -158,8 +158,6 @@ def run_shard(shard):
                 for ri, rng in enumerate(RANGES):
                     order = ORDERS[(bi + ri) % 4]
                     bad = judge(a, b, rng, acc, order)
-                    acc.evals += 1
-                    acc.trans += 1
                     if bad:
                         acc.violation({"t0": a, "t1": b, "range": rng, "order": order}, bad[0], bad[1], order=(10 ** 6 + ms, bi))
     acc.sample({"t0": t0, "t1": t1, "range": rng, "order": "redomain"})
